@@ -98,3 +98,29 @@ pub fn drive<F: Future>(mut fut: Pin<&mut F>, net: &mut Net, r: &mut dyn Respond
     }
     None
 }
+
+static LAST_PANIC: std::sync::Mutex<String> = std::sync::Mutex::new(String::new());
+
+/// Replace the panic hook by one that records the message (and location) of the last panic, so a
+/// case can report *which* panic the implementation hit.
+pub fn install_panic_capture() {
+    std::panic::set_hook(Box::new(|info| {
+        let msg = if let Some(s) = info.payload().downcast_ref::<&str>() {
+            s.to_string()
+        } else if let Some(s) = info.payload().downcast_ref::<String>() {
+            s.clone()
+        } else {
+            "?".to_string()
+        };
+        let loc = info.location().map(|l| format!(" @{}:{}", l.file(), l.line())).unwrap_or_default();
+        if std::env::var_os("VERIF_PANIC_VERBOSE").is_some() {
+            eprintln!("panic: {msg}{loc}");
+        }
+        *LAST_PANIC.lock().unwrap_or_else(|e| e.into_inner()) = msg + &loc;
+    }));
+}
+
+/// Message of the last caught panic (cleared by the call).
+pub fn take_panic() -> String {
+    std::mem::take(&mut *LAST_PANIC.lock().unwrap_or_else(|e| e.into_inner()))
+}
